@@ -717,9 +717,12 @@ class Hypergraph:
                     continue
                 try:
                     members = list(members)
-                    self._edge[idx] = set(members)
+                    member_set = set(members)
                 except TypeError as e:
                     raise XGIError("Invalid ebunch format") from e
+                if None in member_set:
+                    raise XGIError("None cannot be a node")
+                self._edge[idx] = member_set
                 for n in members:
                     if n not in self._node:
                         self._node[n] = set()
@@ -778,9 +781,12 @@ class Hypergraph:
             else:
                 try:
                     members = list(members)
-                    self._edge[idx] = set(members)
+                    member_set = set(members)
                 except TypeError as e:
                     raise XGIError("Invalid ebunch format") from e
+                if None in member_set:
+                    raise XGIError("None cannot be a node")
+                self._edge[idx] = member_set
 
                 for n in members:
                     if n not in self._node:
